@@ -132,7 +132,7 @@ func Start(sp tq.SecretProvider, lg *Logger, opts ...tq.Option) *World {
 }
 
 // HangTimeout bounds every wait for the server side; exceeding it is reported as a hang, never silently.
-var HangTimeout = 20 * time.Second
+var HangTimeout = 90 * time.Second
 
 // Open queues a new connection from the given remote address and waits until the server either
 // parks in Read on it or closes it.
